@@ -498,7 +498,239 @@ theorem span_operators_mixed (p q : Period) (h : p.freq ≠ q.freq) :
     Span.lshift (some (.res p)) (some (.res q)) = .error .mixedFreq := by
   simp [Span.rshift, Span.lshift, Span.make, h, Ne.symm h, throw, throwThe, MonadExceptOf.throw]
 
+/-! ## 6b. The encompassing span is the min of the starts and the max of the ends -/
+
+theorem foldl_min_spec (f : Freq) : ∀ (ps : List Period) (p : Period), p.freq = f → (∀ x ∈ ps, x.freq = f) →
+    ∃ m, ps.foldlM (fun acc x => do if (← x.lt acc) then pure x else pure acc) p = (.ok m : R Period) ∧
+      m.freq = f ∧ (m = p ∨ m ∈ ps) ∧ m.serial ≤ p.serial ∧ ∀ x ∈ ps, m.serial ≤ x.serial
+  | [], p, hp, _ => ⟨p, rfl, hp, Or.inl rfl, Int.le_refl _, by simp⟩
+  | q :: ps, p, hp, hps => by
+    have hq : q.freq = f := hps q (by simp)
+    have hlt : q.lt p = .ok (decide (q.serial < p.serial)) := by
+      simp [Period.lt, checkPeriods, hq, hp, bind, Except.bind, pure, Except.pure]
+    by_cases h : q.serial < p.serial
+    · obtain ⟨m, hm, hmf, hmem, hle, hall⟩ := foldl_min_spec f ps q hq (fun x hx => hps x (by simp [hx]))
+      refine ⟨m, ?_, hmf, ?_, by omega, ?_⟩
+      · simp only [List.foldlM_cons, hlt, bind, Except.bind, h, decide_true, if_true, pure, Except.pure]
+        exact hm
+      · rcases hmem with h1 | h1
+        · exact Or.inr (by simp [h1])
+        · exact Or.inr (by simp [h1])
+      · intro x hx
+        simp at hx
+        rcases hx with h1 | h1
+        · subst h1; exact hle
+        · exact hall x h1
+    · obtain ⟨m, hm, hmf, hmem, hle, hall⟩ := foldl_min_spec f ps p hp (fun x hx => hps x (by simp [hx]))
+      refine ⟨m, ?_, hmf, ?_, hle, ?_⟩
+      · simp only [List.foldlM_cons, hlt, bind, Except.bind, h, decide_false, pure, Except.pure]
+        exact hm
+      · rcases hmem with h1 | h1
+        · exact Or.inl h1
+        · exact Or.inr (by simp [h1])
+      · intro x hx
+        simp at hx
+        rcases hx with h1 | h1
+        · subst h1; omega
+        · exact hall x h1
+
+
+theorem foldl_max_spec (f : Freq) : ∀ (ps : List Period) (p : Period), p.freq = f → (∀ x ∈ ps, x.freq = f) →
+    ∃ m, ps.foldlM (fun acc x => do if (← x.gt acc) then pure x else pure acc) p = (.ok m : R Period) ∧
+      m.freq = f ∧ (m = p ∨ m ∈ ps) ∧ p.serial ≤ m.serial ∧ ∀ x ∈ ps, x.serial ≤ m.serial
+  | [], p, hp, _ => ⟨p, rfl, hp, Or.inl rfl, Int.le_refl _, by simp⟩
+  | q :: ps, p, hp, hps => by
+    have hq : q.freq = f := hps q (by simp)
+    have hgt : q.gt p = .ok (decide (q.serial > p.serial)) := by
+      simp [Period.gt, checkPeriods, hq, hp, bind, Except.bind, pure, Except.pure]
+    by_cases h : q.serial > p.serial
+    · obtain ⟨m, hm, hmf, hmem, hle, hall⟩ := foldl_max_spec f ps q hq (fun x hx => hps x (by simp [hx]))
+      refine ⟨m, ?_, hmf, ?_, by omega, ?_⟩
+      · simp only [List.foldlM_cons, hgt, bind, Except.bind, h, decide_true, if_true, pure, Except.pure]
+        exact hm
+      · rcases hmem with h1 | h1
+        · exact Or.inr (by simp [h1])
+        · exact Or.inr (by simp [h1])
+      · intro x hx
+        simp at hx
+        rcases hx with h1 | h1
+        · subst h1; exact hle
+        · exact hall x h1
+    · obtain ⟨m, hm, hmf, hmem, hle, hall⟩ := foldl_max_spec f ps p hp (fun x hx => hps x (by simp [hx]))
+      refine ⟨m, ?_, hmf, ?_, hle, ?_⟩
+      · simp only [List.foldlM_cons, hgt, bind, Except.bind, h, decide_false, pure, Except.pure]
+        exact hm
+      · rcases hmem with h1 | h1
+        · exact Or.inl h1
+        · exact Or.inr (by simp [h1])
+      · intro x hx
+        simp at hx
+        rcases hx with h1 | h1
+        · subst h1; omega
+        · exact hall x h1
+
+/-- on a non-empty list of periods of one frequency `min` returns a member that is `≤` every member -/
+theorem minPeriods_spec (f : Freq) (l : List Period) (hne : l ≠ []) (hf : ∀ x ∈ l, x.freq = f) :
+    ∃ m, minPeriods l = .ok (some m) ∧ m ∈ l ∧ ∀ x ∈ l, m.serial ≤ x.serial := by
+  cases l with
+  | nil => exact absurd rfl hne
+  | cons p ps =>
+    obtain ⟨m, hm, _, hmem, hle, hall⟩ := foldl_min_spec f ps p (hf p (by simp)) (fun x hx => hf x (by simp [hx]))
+    refine ⟨m, by simp only [minPeriods]; erw [hm]; rfl, ?_, ?_⟩
+    · rcases hmem with h | h <;> simp [h]
+    · intro x hx; simp at hx; rcases hx with h | h
+      · subst h; exact hle
+      · exact hall x h
+
+theorem maxPeriods_spec (f : Freq) (l : List Period) (hne : l ≠ []) (hf : ∀ x ∈ l, x.freq = f) :
+    ∃ m, maxPeriods l = .ok (some m) ∧ m ∈ l ∧ ∀ x ∈ l, x.serial ≤ m.serial := by
+  cases l with
+  | nil => exact absurd rfl hne
+  | cons p ps =>
+    obtain ⟨m, hm, _, hmem, hle, hall⟩ := foldl_max_spec f ps p (hf p (by simp)) (fun x hx => hf x (by simp [hx]))
+    refine ⟨m, by simp only [maxPeriods]; erw [hm]; rfl, ?_, ?_⟩
+    · rcases hmem with h | h <;> simp [h]
+    · intro x hx; simp at hx; rcases hx with h | h
+      · subst h; exact hle
+      · exact hall x h
+
+theorem startOf_spec (f : Freq) (a : EncArg) (hf : ∀ x ∈ a.periods, x.freq = f) :
+    (∀ l, a = .seq l → ∀ p ∈ l.filterMap id, ∃ m, a.startOf = some m ∧ m.freq = f ∧ m.serial ≤ p.serial) ∧
+    (∀ s e, a = .attrs s e → a.startOf = s) ∧ (∀ m, a.startOf = some m → m.freq = f) := by
+  refine ⟨?_, ?_, ?_⟩
+  · rintro l rfl p hp
+    have hne : l.filterMap id ≠ [] := by intro h; rw [h] at hp; simp at hp
+    obtain ⟨m, hm, hmem, hall⟩ := minPeriods_spec f _ hne hf
+    exact ⟨m, by simp [EncArg.startOf, EncArg.pick, hm], hf m hmem, hall p hp⟩
+  · rintro s e rfl; rfl
+  · intro m hm
+    cases a with
+    | attrs s e =>
+      simp [EncArg.startOf, EncArg.pick] at hm
+      exact hf m (by simp [EncArg.periods, hm])
+    | seq l =>
+      by_cases hne : l.filterMap id = []
+      · simp [EncArg.startOf, EncArg.pick, hne, minPeriods, pure, Except.pure] at hm
+      · obtain ⟨m', hm', hmem, _⟩ := minPeriods_spec f _ hne hf
+        simp [EncArg.startOf, EncArg.pick, hm'] at hm
+        subst hm; exact hf _ hmem
+
+theorem endOf_spec (f : Freq) (a : EncArg) (hf : ∀ x ∈ a.periods, x.freq = f) :
+    (∀ l, a = .seq l → ∀ p ∈ l.filterMap id, ∃ m, a.endOf = some m ∧ m.freq = f ∧ p.serial ≤ m.serial) ∧
+    (∀ s e, a = .attrs s e → a.endOf = e) ∧ (∀ m, a.endOf = some m → m.freq = f) := by
+  refine ⟨?_, ?_, ?_⟩
+  · rintro l rfl p hp
+    have hne : l.filterMap id ≠ [] := by intro h; rw [h] at hp; simp at hp
+    obtain ⟨m, hm, hmem, hall⟩ := maxPeriods_spec f _ hne hf
+    exact ⟨m, by simp [EncArg.endOf, EncArg.pick, hm], hf m hmem, hall p hp⟩
+  · rintro s e rfl; rfl
+  · intro m hm
+    cases a with
+    | attrs s e =>
+      simp [EncArg.endOf, EncArg.pick] at hm
+      exact hf m (by simp [EncArg.periods, hm])
+    | seq l =>
+      by_cases hne : l.filterMap id = []
+      · simp [EncArg.endOf, EncArg.pick, hne, maxPeriods, pure, Except.pure] at hm
+      · obtain ⟨m', hm', hmem, _⟩ := maxPeriods_spec f _ hne hf
+        simp [EncArg.endOf, EncArg.pick, hm'] at hm
+        subst hm; exact hf _ hmem
+
+
+/-- **Encompassing span.** For arguments whose periods all have one frequency, `get_encompassing_span` succeeds; its start is
+`≤` and its end `≥` every period of every sequence argument and every start/end attribute of every object argument (whatever
+the order of the elements inside a sequence, `None` elements and `None` arguments skipped); a missing start or end (no
+argument supplies one) leaves the contextual end in the span. -/
+theorem encompassing_contains (f : Freq) (args : List (Option EncArg))
+    (hf : ∀ a, some a ∈ args → ∀ x ∈ a.periods, x.freq = f) :
+    ∃ sp s e, encompassing args = .ok (sp, s, e) ∧
+      sp = ⟨(s.map Endpoint.res).getD (.ctx false 0), (e.map Endpoint.res).getD (.ctx true 0), 1⟩ ∧
+      (∀ l, some (EncArg.seq l) ∈ args → ∀ p, some p ∈ l →
+        ∃ s0 e0, s = some s0 ∧ e = some e0 ∧ s0.serial ≤ p.serial ∧ p.serial ≤ e0.serial) ∧
+      (∀ b p, some (EncArg.attrs (some p) b) ∈ args → ∃ s0, s = some s0 ∧ s0.serial ≤ p.serial) ∧
+      (∀ a p, some (EncArg.attrs a (some p)) ∈ args → ∃ e0, e = some e0 ∧ p.serial ≤ e0.serial) := by
+  -- the candidate lists
+  let as := args.filterMap id
+  have has : ∀ a, a ∈ as ↔ some a ∈ args := by intro a; simp [as]
+  let S := as.filterMap EncArg.startOf
+  let E := as.filterMap EncArg.endOf
+  have hSf : ∀ x ∈ S, x.freq = f := by
+    intro x hx
+    simp only [S, List.mem_filterMap] at hx
+    obtain ⟨a, ha, hx⟩ := hx
+    exact (startOf_spec f a (hf a ((has a).1 ha))).2.2 x hx
+  have hEf : ∀ x ∈ E, x.freq = f := by
+    intro x hx
+    simp only [E, List.mem_filterMap] at hx
+    obtain ⟨a, ha, hx⟩ := hx
+    exact (endOf_spec f a (hf a ((has a).1 ha))).2.2 x hx
+  -- min / max of the candidates
+  have hmin : ∃ s, minPeriods S = .ok s ∧ (S = [] → s = none) ∧
+      (S ≠ [] → ∃ s0, s = some s0 ∧ s0.freq = f ∧ ∀ x ∈ S, s0.serial ≤ x.serial) := by
+    by_cases h : S = []
+    · exact ⟨none, by rw [h]; rfl, fun _ => rfl, fun h' => absurd h h'⟩
+    · obtain ⟨m, hm, hmem, hall⟩ := minPeriods_spec f S h hSf
+      exact ⟨some m, hm, fun h' => absurd h' h, fun _ => ⟨m, rfl, hSf m hmem, hall⟩⟩
+  have hmax : ∃ e, maxPeriods E = .ok e ∧ (E = [] → e = none) ∧
+      (E ≠ [] → ∃ e0, e = some e0 ∧ e0.freq = f ∧ ∀ x ∈ E, x.serial ≤ e0.serial) := by
+    by_cases h : E = []
+    · exact ⟨none, by rw [h]; rfl, fun _ => rfl, fun h' => absurd h h'⟩
+    · obtain ⟨m, hm, hmem, hall⟩ := maxPeriods_spec f E h hEf
+      exact ⟨some m, hm, fun h' => absurd h' h, fun _ => ⟨m, rfl, hEf m hmem, hall⟩⟩
+  obtain ⟨s, hs, hs0, hs1⟩ := hmin
+  obtain ⟨e, he, he0, he1⟩ := hmax
+  -- the span is always constructible: two resolved ends share the frequency f
+  have hmake : Span.make (s.map .res) (e.map .res) 1 =
+      .ok ⟨(s.map Endpoint.res).getD (.ctx false 0), (e.map Endpoint.res).getD (.ctx true 0), 1⟩ := by
+    cases s with
+    | none => cases e <;> simp [Span.make, pure, Except.pure]
+    | some s0 =>
+      cases e with
+      | none => simp [Span.make, pure, Except.pure]
+      | some e0 =>
+        have h1 : s0.freq = f := by
+          by_cases h : S = []
+          · have := hs0 h; cases this
+          · obtain ⟨x, hx, hxf, _⟩ := hs1 h; cases hx; exact hxf
+        have h2 : e0.freq = f := by
+          by_cases h : E = []
+          · have := he0 h; cases this
+          · obtain ⟨x, hx, hxf, _⟩ := he1 h; cases hx; exact hxf
+        simp [Span.make, h1, h2, pure, Except.pure]
+  refine ⟨_, s, e, ?_, rfl, ?_, ?_, ?_⟩
+  · show (do let s ← minPeriods S; let e ← maxPeriods E; let sp ← Span.make (s.map .res) (e.map .res) 1; pure (sp, s, e)) = _
+    rw [hs, he]
+    show (do let sp ← Span.make (s.map .res) (e.map .res) 1; pure (sp, s, e)) = _
+    rw [hmake]; rfl
+  · intro l hl p hp
+    have hpl : p ∈ l.filterMap id := by simp [hp]
+    have hsp := startOf_spec f (.seq l) (hf _ hl)
+    have hep := endOf_spec f (.seq l) (hf _ hl)
+    obtain ⟨m, hm, _, hmle⟩ := hsp.1 l rfl p hpl
+    obtain ⟨m', hm', _, hmle'⟩ := hep.1 l rfl p hpl
+    have hmS : m ∈ S := by simp only [S, List.mem_filterMap]; exact ⟨_, (has _).2 hl, hm⟩
+    have hmE : m' ∈ E := by simp only [E, List.mem_filterMap]; exact ⟨_, (has _).2 hl, hm'⟩
+    obtain ⟨s0, rfl, _, hall⟩ := hs1 (by intro h; rw [h] at hmS; simp at hmS)
+    obtain ⟨e0, rfl, _, hall'⟩ := he1 (by intro h; rw [h] at hmE; simp at hmE)
+    exact ⟨s0, e0, rfl, rfl, by have := hall m hmS; omega, by have := hall' m' hmE; omega⟩
+  · intro b p hmem
+    have hmS : p ∈ S := by
+      simp only [S, List.mem_filterMap]; exact ⟨_, (has _).2 hmem, rfl⟩
+    obtain ⟨s0, rfl, _, hall⟩ := hs1 (by intro h; rw [h] at hmS; simp at hmS)
+    exact ⟨s0, rfl, hall p hmS⟩
+  · intro a p hmem
+    have hmE : p ∈ E := by
+      simp only [E, List.mem_filterMap]; exact ⟨_, (has _).2 hmem, rfl⟩
+    obtain ⟨e0, rfl, _, hall⟩ := he1 (by intro h; rw [h] at hmE; simp at hmE)
+    exact ⟨e0, rfl, hall p hmE⟩
+
+
 /-! ## 7. Non-vacuity: concrete values meet the hypotheses and the models compute -/
+example : encompassing [some (.seq [some ⟨.Q, 8085⟩, none, some ⟨.Q, 8080⟩]), none, some (.attrs (some ⟨.Q, 8090⟩) (some ⟨.Q, 8082⟩))]
+    = .ok (⟨.res ⟨.Q, 8080⟩, .res ⟨.Q, 8085⟩, 1⟩, some ⟨.Q, 8080⟩, some ⟨.Q, 8085⟩) := by decide
+example : encompassing [some (.seq [some ⟨.Q, 1⟩, some ⟨.M, 5⟩]), some (.seq [])] = .ok (⟨.ctx false 0, .ctx true 0, 1⟩, none, none) := by decide
+example : (encompassing [some (.seq [some ⟨.Q, 1⟩]), some (.seq [some ⟨.M, 5⟩])]).toOption = none := by decide
+
 
 example : ValidYmd 2020 2 29 ∧ ymd2ord 2020 2 29 = 737484 ∧ ord2ymd 737484 = (2020, 2, 29) := by decide
 example : (Freq.Q) ∈ regularFreqs ∧ toYearSegment ⟨.Q, 8083⟩ = .ok (2020, 4) := by decide
